@@ -144,6 +144,36 @@ func runC11(res *Result, tier string, seed int64, replay string) {
 				docs = append(docs, doc{"feature:" + fn + "-in-" + pn, "<mjml><mj-body>" + p[0] + fsrc + p[1] + "</mj-body></mjml>"})
 			}
 		}
+		// children that are not columns (mj-raw) among automatic-width columns and groups, in every position: the width of a
+		// column is 100 % / (number of column-like siblings), in the head as in the body
+		{
+			col, raw, grp := `<mj-column><mj-text>c</mj-text></mj-column>`, `<mj-raw><p>r</p></mj-raw>`, `<mj-group><mj-column><mj-text>g1</mj-text></mj-column><mj-raw><p>gr</p></mj-raw><mj-column><mj-text>g2</mj-text></mj-column></mj-group>`
+			var seqs [][]string
+			for n := 1; n <= 3; n++ {
+				for pos := 0; pos <= n; pos++ {
+					var q []string
+					for k := 0; k < n; k++ {
+						if k == pos {
+							q = append(q, raw)
+						}
+						q = append(q, col)
+					}
+					if pos == n {
+						q = append(q, raw)
+					}
+					seqs = append(seqs, q)
+				}
+			}
+			seqs = append(seqs, []string{raw, col, raw, col, raw}, []string{col, grp, raw}, []string{raw, grp}, []string{grp, raw, col, col},
+				[]string{`<mj-group><mj-raw><p>first</p></mj-raw><mj-column><mj-text>a</mj-text></mj-column><mj-column><mj-text>b</mj-text></mj-column><mj-column><mj-text>c</mj-text></mj-column></mj-group>`},
+				[]string{`<mj-group><mj-column><mj-text>a</mj-text></mj-column><mj-column><mj-text>b</mj-text></mj-column><mj-raw><p>last</p></mj-raw></mj-group>`, col})
+			for si, q := range seqs {
+				inner := strings.Join(q, "")
+				docs = append(docs, doc{fmt.Sprintf("raw-among-columns/%d/body", si), "<mjml><mj-body><mj-section>" + inner + "</mj-section></mj-body></mjml>"})
+				docs = append(docs, doc{fmt.Sprintf("raw-among-columns/%d/wrapper", si), "<mjml><mj-body><mj-wrapper><mj-section>" + inner + "</mj-section><mj-raw><p>w</p></mj-raw><mj-section>" + col + "</mj-section></mj-wrapper></mj-body></mjml>"})
+				docs = append(docs, doc{fmt.Sprintf("raw-among-columns/%d/after-raw", si), "<mjml><mj-body><mj-raw><p>b</p></mj-raw><mj-section full-width=\"full-width\">" + inner + "</mj-section><mj-raw><p>e</p></mj-raw></mj-body></mjml>"})
+			}
+		}
 		sort.Slice(docs, func(i, j int) bool { return docs[i].name < docs[j].name })
 		widths := []string{"40%", "33.33%", "12.5%", "150px", "200px", "25%", "66.6666%", "100%", "7%", "300px", "150.6px", "199.75px", "120.2px", "33.5%"}
 		for i := 0; i < n; i++ {
